@@ -8,8 +8,8 @@ import vlib
 # ---------------------------------------------------------------------------------------------
 ESCAPED = [7, 8, 12, 10, 13, 9, 11, 92, 39, 34, 63]                 # bytes String_Show escapes
 LETTERS = [ord(c) for c in 'abfnrtv']                               # the escape letters
-SAFE_FIRST = [ord(c) for c in ',;:|/ \t\n!#&()*<=>@[]^_{}~ghjkmqrstuvwyzGHJKMQRSTUVWYZ']
-LIT_CHARS = [c for c in range(32, 127) if c != ord('%')] + [9, 10]
+SAFE_FIRST = [ord(c) for c in ',;:|/ \t\n!#&()*<=>@[]^_{}~%ghjkmqrstuvwyzGHJKMQRSTUVWYZ']
+LIT_CHARS = list(range(32, 127)) + [9, 10, 37, 37]
 WS = (32, 9, 10, 11, 12, 13)
 
 I64MIN, I64MAX = -2**63, 2**63 - 1
@@ -121,7 +121,7 @@ def gen_lit(rng, first_safe=True, no_trailing_ws=False):
     n = rng.choice([1, 1, 1, 2, 2, 3, 5])
     bs = [rng.choice(SAFE_FIRST) if first_safe else rng.choice(LIT_CHARS)] + [rng.choice(LIT_CHARS) for _ in range(n - 1)]
     if rng.random() < .5:
-        bs = [ord(c) for c in rng.choice([', ', ',', ';', ' ', ':', ' | ', '\n', '\t', ' and ', '/', ' = ', '; '])]
+        bs = [ord(c) for c in rng.choice([', ', ',', ';', ' ', ':', ' | ', '\n', '\t', ' and ', '/', ' = ', '; ', '%', '% ', ' %', '%%', ' 100% of '])]
     if no_trailing_ws:
         while bs and bs[-1] in WS:
             bs.pop()
@@ -162,14 +162,20 @@ def gen_case(rng, maxvals=6, kinds=('s', 's', 'i', 'f', 'ni', 'nf'), heavy_ok=Tr
     for i, (t, numeric, lead) in enumerate(vals):
         if i == 0:
             if rng.random() < .2:
-                toks.append('L' + hexs(gen_lit(rng, first_safe=False, no_trailing_ws=lead)))
+                toks.append('L' + hexs(gen_lit(rng, first_safe=False)))
         elif vals[i - 1][1] or rng.random() < .85:
             # after a numeric text a separator is needed; between Strings it is optional
-            toks.append('L' + hexs(gen_lit(rng, first_safe=True, no_trailing_ws=lead)))
+            toks.append('L' + hexs(gen_lit(rng, first_safe=True)))
         toks.append(t)
     last_numeric = vals[-1][1]
     rest = []
-    if rng.random() < .6:
+    if rng.random() < .15:
+        # a closing literal; it must not end in white space when white space may follow
+        toks.append('L' + hexs(gen_lit(rng, first_safe=True, no_trailing_ws=True)))
+        last_numeric = False
+        if rng.random() < .5:
+            rest = [rng.randrange(1, 256) for _ in range(rng.randrange(1, 5))]
+    elif rng.random() < .6:
         rest = gen_lit(rng, first_safe=True) + [rng.randrange(1, 256) for _ in range(rng.randrange(0, 4))]
     elif not last_numeric and rng.random() < .5:
         rest = [rng.randrange(1, 256) for _ in range(rng.randrange(1, 5))]
@@ -267,7 +273,7 @@ def tok_info(t):
 
 def wellformed(case):
     """the side conditions of the property's composition: what follows a numeric text cannot continue
-    the token, literal text has no '%', a padded numeric text is not preceded by white space in a literal"""
+    the token; a closing literal that ends in white space is not followed by white space"""
     try:
         K, pre, rest, mode, toks = parse_case(case)
         infos = [tok_info(t) for t in toks]
@@ -277,11 +283,10 @@ def wellformed(case):
         return False
     for n, inf in enumerate(infos):
         if inf[0] == 'L':
-            if not inf[1] or b'%' in inf[1] or b'\0' in inf[1]:
+            if not inf[1] or b'\0' in inf[1]:
                 return False
-            if inf[1][-1] in WS and n + 1 < len(infos) and infos[n + 1][0] == 'v' and infos[n + 1][1] != 's':
-                if padded(infos[n + 1][4]):
-                    return False
+            if inf[1][-1] in WS and n + 1 == len(infos) and rest and rest[0] in WS:
+                return False      # scanf's white-space directive would eat the following white space too
             if n + 1 < len(infos) and infos[n + 1][0] == 'L':
                 return False
         elif inf[1] in 'if':
